@@ -15,7 +15,13 @@ EXPLANATION = (
     "second operand' cases, the two cases are handled by mirror-image code (swapping the operands maps one arm onto the other): "
     "a necessary condition for the result not to depend on subschema order; (D3) every case analysis `match (f(a), f(b))` over "
     "the two operands of a binary function on schemas (merges, the rough-equality and mutual-exclusion predicates) has a set of "
-    "pattern alternatives that is closed under swapping the operands — `(None, x)` is never handled without `(x, None)`."
+    "pattern alternatives that is closed under swapping the operands — `(None, x)` is never handled without `(x, None)`; (D4) where such a "
+    "function compares two collections element by element (`.all(..)` over one operand's iterator), the same conjunction "
+    "compares their lengths — otherwise 'equal' silently means 'subset', and the merge keeps a reference whose constraints "
+    "the merged schema no longer implies; (D5) the instance-type test used to filter enum values after a merge admits, for each "
+    "JSON Schema type, every JSON kind of that type (number = unsigned, negative and fractional numbers; integer = the first "
+    "two), evaluated abstractly over the eight JSON kinds: a test that is too narrow drops valid enum values from the merged "
+    "type."
 )
 ASSUMPTIONS = ["the pairwise merge functions compute intersections (not decided)"]
 
@@ -34,6 +40,8 @@ def run(facts, rep, tier):
     c = facts.impl
     run_d(facts, rep, tier)
     run_d3(facts, rep, tier)
+    run_d4(facts, rep, tier)
+    run_d5(facts, rep, tier)
     # ------------------------------------------------------------ consumption of Result<_, ()>
     n = 0
     for h in c.user_fns():
@@ -133,6 +141,8 @@ def run(facts, rep, tier):
         m = [n_ for n_, _ in nodes(cs[0]["body"], "match") if n_.get("src") == "normal" and "schemars::schema::Schema" in c.ty(n_.get("scty"))]
         got = {}
         if m:
+            from lib import table_is_plain
+            table_is_plain(rep, "C09.W1", "convert_schema-dispatch", m[0])
             for a in m[0]["arms"]:
                 got[psrc(a["pat"])] = src(a["body"])
         rep.ob("C09.W1", "false-schema-is-never", "convert_never(" in got.get("Schema::Bool(false)", ""), "convert_schema: Schema::Bool(false) => convert_never")
@@ -299,3 +309,90 @@ def run_d3(facts, rep, tier):
                    "the case (%s, %s) is handled but its mirror image (%s, %s) is not: the result depends on which subschema comes first" % (missing[0][0], missing[0][1], missing[0][1], missing[0][0]), m.get("sp"))
             k_in += 1
     rep.floor("C09.D3", "symmetric case analyses over two operands", n3, 18)
+
+
+def run_d4(facts, rep, tier):
+    c = facts.impl
+    n4 = 0
+    for h in c.user_fns():
+        f = c.fns.get(h["fn"], {})
+        ins = f.get("inputs", [])
+        if len(ins) < 2 or ins[0] != ins[1] or f.get("output") != "bool":
+            continue
+        cn = PCanon(c, h, 3)
+        k_in = 0
+        for n, anc in walk(h["body"]):
+            if not (n.get("k") == "mcall" and n["name"] == "all"):
+                continue
+            t = cn.r(n["recv"])
+            if "$P0" not in t and "$P1" not in t:
+                continue
+            # element-wise pairing: the iterator zips both operands, or the closure looks each element up in the other operand
+            clo = cn.r(n["args"][0]) if n.get("args") else ""
+            other = "$P1" if "$P0" in t else "$P0"
+            pairing = (".zip(" in t and "$P0" in t and "$P1" in t) or re.search(re.escape(other) + r"[^ ,()]*\.(get|contains_key|contains)\(", clo) is not None
+            if not pairing:
+                continue
+            n4 += 1
+            # the maximal conjunction this `.all(..)` is an operand of
+            top = n
+            for a in reversed(anc):
+                if a.get("k") == "bin" and a.get("op") == "And":
+                    top = a
+                else:
+                    break
+            lens_ok = False
+            for x, _ in walk(top):
+                if x.get("k") == "bin" and x.get("op") == "Eq":
+                    l, r = strip_refs(x["l"]), strip_refs(x["r"])
+                    if l.get("k") == "mcall" and r.get("k") == "mcall" and l["name"] == "len" and r["name"] == "len":
+                        tl, tr = cn.r(l["recv"]), cn.r(r["recv"])
+                        if ("$P0" in tl and "$P1" in tr and swap_sides(tl, "#", "#") == tr) or ("$P1" in tl and "$P0" in tr and swap_sides(tl, "#", "#") == tr):
+                            lens_ok = True
+            rep.ob("C09.D4", "elementwise-comparison-checks-length:%s#%d" % (h["fn"], k_in), lens_ok,
+                   "`a.len() == b.len() && a.iter()..all(..)`" if lens_ok else
+                   "two collections are compared element by element without comparing their lengths: every member of one operand is looked up in the other, so a strict subset counts as equal (and the answer depends on which operand comes first)", n.get("sp"))
+            k_in += 1
+    rep.floor("C09.D4", "element-wise comparisons in binary predicates on schemas", n4, 2)
+
+
+TYPE_KINDS = {"Null": {"null"}, "Boolean": {"bool"}, "Object": {"object"}, "Array": {"array"}, "String": {"string"},
+              "Number": {"u64", "neg", "float"}, "Integer": {"u64", "neg"}}
+
+
+def run_d5(facts, rep, tier):
+    import kinds
+    c = facts.impl
+    sites = []
+    for h in c.user_fns():
+        f = c.fns.get(h["fn"], {})
+        ins = f.get("inputs", [])
+        if not (any(t.replace("&", "").strip().endswith("schema::InstanceType") for t in ins) and any(kinds.is_value_ty(t) for t in ins)):
+            continue
+        for m, _ in nodes(h["body"], "match"):
+            if m.get("src") == "normal" and "InstanceType" in c.ty(m.get("scty")):
+                sites.append((h, m))
+    if not rep.floor("C09.D5", "instance-type test over a JSON value", len(sites), 1):
+        return
+    h, m = sites[0]
+    # the value parameter
+    vname = None
+    for i, t in enumerate(c.fns[h["fn"]]["inputs"]):
+        if kinds.is_value_ty(t) and i < len(h.get("params", [])) and h["params"][i].get("k") == "bind":
+            vname = h["params"][i]["name"]
+    ev = kinds.Eval(c)
+    from lib import table_is_plain
+    table_is_plain(rep, "C09.D5", "instance-type", m)
+    seen = set()
+    for a in m["arms"]:
+        for v in pat_top_variants(a["pat"]):
+            name = v.split("::")[-1]
+            if name not in TYPE_KINDS:
+                continue
+            seen.add(name)
+            rets = set()
+            ok_k = ev.succ(a["body"], kinds.ALL, vname, rets) | frozenset(rets)
+            miss = sorted(TYPE_KINDS[name] - set(ok_k))
+            rep.ob("C09.D5", "type-admits-its-kinds:%s" % name, not miss, "%s admits %s" % (name, sorted(ok_k)) if not miss else
+                   "the test for JSON Schema type `%s` rejects %s values: valid enum values of that kind are filtered out of a merged schema, so the generated type rejects valid instances" % (name.lower(), "/".join(miss)), a.get("sp"))
+    rep.floor("C09.D5", "JSON Schema types with an arm", len(seen), 7)
